@@ -122,6 +122,23 @@ func BuildHAProxyEndpointsRequest(
 	}
 }
 
+// EndpointsToUnmanage returns the endpoints of the previous request that the current request no longer
+// contains. Endpoints are compared by their expression: the entries of two requests are distinct objects
+// even when they describe the same endpoint.
+func EndpointsToUnmanage(previous, current []*HAProxyEndpointData) []*HAProxyEndpointData {
+	stillManaged := make(map[string]struct{}, len(current))
+	for _, endpoint := range current {
+		stillManaged[endpoint.Endpoint] = struct{}{}
+	}
+	toUnmanage := []*HAProxyEndpointData{}
+	for _, endpoint := range previous {
+		if _, found := stillManaged[endpoint.Endpoint]; !found {
+			toUnmanage = append(toUnmanage, endpoint)
+		}
+	}
+	return toUnmanage
+}
+
 func WaitForProxyHealthcheck() error {
 	retryConfig := client.RetryConfig{
 		Attempts:           timesToRetry,
